@@ -213,7 +213,9 @@ def exec (cfg : Cfg) : Nat → Ctx → Sh → St → Out × St
       seqM (pushFrame cfg ctx s) fun s1 =>
       seqM (pushChecked cfg ctx locals s1) fun s2 =>
       seqM (ticksN cfg ctx callTicks s2) fun s3 =>
-      seqM (exec cfg f ctx body s3) fun s4 => (.ok, leave s4 s.depth s.sp)
+      seqM (exec cfg f ctx body s3) fun s4 =>
+      -- F_RETURN is an instruction of the function, too
+      seqM (tick cfg ctx s4) fun s5 => (.ok, leave s5 s.depth s.sp)
     | .recur locals =>
       -- f () { <locals>; f (); } : `call locals (recur locals)`, unfolded with the fuel
       exec cfg f ctx (.call locals (.recur locals)) s
@@ -224,6 +226,8 @@ def exec (cfg : Cfg) : Nat → Ctx → Sh → St → Out × St
     | .cb (k + 1) body =>
       -- an efun that calls back: each callback is a function call (fake frame + function frame); errors
       -- propagate out of the efun (call_efun_callback is not a safe apply)
+      -- call_efun_callback charges a tick of its own per callback (fix: `if (!--eval_cost)` there, too)
+      seqM (tick cfg ctx s) fun s =>
       seqM (exec cfg f ctx (.call 0 (.call 0 body)) s) fun s => exec cfg f ctx (.cb k body) s
     | .safe body =>
       -- safe_apply: save_context fails silently at full depth (returns 0); an error is swallowed;
